@@ -115,7 +115,7 @@ def body(run):
                     metas.append(dict(desc, task=tk, observed_codes=c[2:]))
     # ---- state shared between the blocks of DIFFERENT bands: one internal mask for the whole file (output nodata = None).  Two bands whose
     #      invalid pixels differ: whatever the rule for the file's mask is, it must not depend on which band's block is written last
-    for mi in range(run.scale(2, 10)):
+    for mi in range(run.scale(4, 12)):
         g = synth.aligned_geom(rng, run.scale(36, 48))
         src = fz.texture(rng, g.src_shape, 2)
         for b in range(2):
@@ -135,12 +135,14 @@ def body(run):
             dist['skipped:' + type(ex).__name__] = dist.get('skipped:' + type(ex).__name__, 0) + 1
             continue
         bd = ic.digest(base)
-        for si in range(nsched + 3):
+        for si in range(nsched + 4):
             threads = rng.choice([2, 3, 4])
             seed = rng.randrange(10 ** 9)
             # the first two schedules take the tasks in reverse / shuffled submission order (every block of band 2 before band 1's), the others in
             # submission order with random switches: completion order is not promised by the executor
-            order = ('lifo', 'shuffle', 'by-window')[si] if si < 3 else 'fifo'       # (by-window: the two bands' blocks of one window side by side)
+            order = ('lifo', 'shuffle', 'by-window', 'by-window')[si] if si < 4 else 'fifo'       # (by-window: the two bands' blocks of one window side by side)
+            if si == 3:
+                threads = 2
             r = ic.run_fuse(pair, run.work / 'msched.tif', rng=random.Random(seed), threads=threads, task_order=order, **kw)
             desc = dict(geom=g.describe(), bands=2, per_band_nodata_holes=True, out_profile=kw.get('out_profile'), model_config=kw.get('model_config'), model='gain', kernel_shape=[3, 3],
                         max_block_mem=mbm, threads=threads, schedule_seed=seed, task_order=order)
